@@ -34,3 +34,8 @@
 (declare-fun csum (Int) Int)
 ; tMark(t, label): the element a traveler has marked under a label (0 when none)
 (declare-fun tMark (Any Str) Int)
+; label scans (C01/C02): lscanlen(db, label), lscanid(db, label, j): what db.VertexLabelScan(label) yields;
+; lsum(m): total over the first m labels of the step (defined by contract axioms)
+(declare-fun lscanlen (Any Str) Int)
+(declare-fun lscanid (Any Str Int) Str)
+(declare-fun lsum (Int) Int)
